@@ -287,6 +287,7 @@ def one_case(ctx, st, lc, P, text, kinds, kind, kw, pinfo, label, other=None):
 
 
 def run(ctx):
+    _repo_tests(ctx)
     import dateutil.parser as P
     import dateutil.parser._parser as PP
     from dateutil import tz
@@ -367,6 +368,13 @@ def entry_points(ctx, st, P, PP):
         if ctx.hits.get('parser.parse', 0) == before:
             ctx.inconclusive_because('entry point %s bypasses the monitor' % name)
         ctx.count('entry_points_checked')
+
+
+def _repo_tests(ctx):
+    # thorough tier: the repository's own tests as one more workload under the same monitors
+    if ctx.tier == 'thorough' and ctx.shard == 0:
+        from vf import repo_tests
+        repo_tests.run_under_monitors(ctx, ['parse'], 'C14')
 
 
 def floors(agg, tier):
